@@ -530,6 +530,8 @@ def shapes(tier):
     for p1, p2 in itertools.product(grid, repeat=2):
         if (p1 + p2) % 2 == 0 or thorough:
             out.append(shape_work("static2", (p1, p2)))
+    from checks import c03 as _c03d
+    out += _c03d.default_shapes(PROP)
     return out
 
 
